@@ -221,6 +221,10 @@ func (p SignatureProof) MergeSparse(s gcrypto.SparseSignatureProof) gcrypto.Sign
 	}
 
 	countBefore := p.sigTree.SigBits.Count()
+	bitsBefore := p.sigTree.SigBits.Clone()
+
+	// Scratch tree, only used to learn which keys the valid offered signatures cover.
+	offered := p.sigTree.Derive()
 
 	for _, ss := range s.Signatures {
 		if len(ss.KeyID) != 2 {
@@ -248,6 +252,7 @@ func (p SignatureProof) MergeSparse(s gcrypto.SparseSignatureProof) gcrypto.Sign
 			sig := new(blst.P1Affine)
 			sig = sig.Uncompress(ss.Sig)
 			p.sigTree.AddSignature(id, *sig)
+			offered.AddSignature(id, *sig)
 			if p.sigTree.SigBits.Count() > countBefore {
 				res.IncreasedSignatures = true
 			}
@@ -258,12 +263,14 @@ func (p SignatureProof) MergeSparse(s gcrypto.SparseSignatureProof) gcrypto.Sign
 			if sig == nil || !haveSig.Equals(sig) {
 				// Undecodable bytes, or a different signature than the one we verified.
 				res.AllValidSignatures = false
+				continue
 			}
+			offered.AddSignature(id, *sig)
 		}
 	}
 
 	res.IncreasedSignatures = p.sigTree.SigBits.Count() > countBefore
-	// TODO: how to check WasStrictSuperset?
+	res.WasStrictSuperset = offered.SigBits.IsStrictSuperSet(bitsBefore)
 	return res
 }
 
